@@ -54,10 +54,13 @@ type c17Case struct {
 	Cookie c17Cookie
 	Cors   c17Cors
 	Steps  []c17Step
+	// Pre: response headers a host application's handler (compression, i18n, session middleware) has put on the
+	// ResponseWriter, with Header().Add, before it delegates to the engine
+	Pre http.Header
 }
 
 func (c c17Case) String() string {
-	return fmt.Sprintf("{cookie=%+v cors=%+v steps=%+v}", c.Cookie, c.Cors, c.Steps)
+	return fmt.Sprintf("{cookie=%+v cors=%+v steps=%+v preset=%v}", c.Cookie, c.Cors, c.Steps, c.Pre)
 }
 
 const (
@@ -114,6 +117,12 @@ func (c c17Cors) allows(origin string) bool {
 
 func genC17(rt *rapid.T, knownCookie bool, col *Collector) c17Case {
 	c := c17Case{}
+	switch rapid.IntRange(0, 5).Draw(rt, "preset") {
+	case 0:
+		c.Pre = http.Header{"Vary": {"Accept-Encoding", "Accept-Language"}, "Set-Cookie": {"app=1; Path=/", "lang=en; Path=/"}}
+	case 1:
+		c.Pre = http.Header{"Vary": {"Accept-Language"}, "X-Frame-Options": {"DENY"}}
+	}
 	if rapid.IntRange(0, 3).Draw(rt, "cookie") > 0 {
 		c.Cookie = c17Cookie{
 			Set:      true,
@@ -219,7 +228,22 @@ func runC17(c c17Case) (fail string, stats map[string]bool) {
 		desc := fmt.Sprintf("%s (origin %q)", what, originValue(st.Origin))
 		// --- cookie ---
 		resp := http.Response{Header: s.Header}
-		cookies := resp.Cookies()
+		engineName := c.Cookie.Name
+		if engineName == "" {
+			engineName = "io"
+		}
+		var cookies []*http.Cookie
+		var engineLines []string
+		for _, ck := range resp.Cookies() {
+			// cookies of the host application (other names) are not the engine's business
+			if ck.Name == engineName || c.Pre == nil {
+				cookies = append(cookies, ck)
+				engineLines = append(engineLines, ck.String())
+			}
+		}
+		if c.Pre != nil {
+			stats["headers-preset-by-the-host-application"] = true
+		}
 		if c.Cookie.Set && isHandshake {
 			stats["cookie-on-handshake"] = true
 			if len(cookies) != 1 {
@@ -243,8 +267,8 @@ func runC17(c c17Case) (fail string, stats map[string]bool) {
 			if ck.Name != wantName || ck.Path != wantPath || ck.Domain != c.Cookie.Domain || ck.Secure != c.Cookie.Secure || ck.SameSite != wantSS || ck.MaxAge != c.Cookie.MaxAge || !ck.HttpOnly {
 				return fmt.Sprintf("%s: Set-Cookie %q does not carry the configured attributes %+v", desc, s.Header.Get("Set-Cookie"), c.Cookie)
 			}
-		} else if len(s.Header.Values("Set-Cookie")) != 0 {
-			return fmt.Sprintf("%s: response carries Set-Cookie %q; only the handshake response of a session with a configured cookie may", desc, s.Header.Values("Set-Cookie"))
+		} else if len(engineLines) != 0 {
+			return fmt.Sprintf("%s: response carries Set-Cookie %q; only the handshake response of a session with a configured cookie may", desc, engineLines)
 		}
 		// --- events ---
 		wantInitial := 0
@@ -319,7 +343,7 @@ func runC17(c c17Case) (fail string, stats map[string]bool) {
 		}
 		switch st.Kind {
 		case "handshake":
-			pc := &PollClient{W: w, O: ClientOpts{Rev: 4, Extra: hdr, JSONP: st.JSONP, J: "5", B64: st.JSONP}}
+			pc := &PollClient{W: w, O: ClientOpts{Rev: 4, Extra: hdr, JSONP: st.JSONP, J: "5", B64: st.JSONP, PreHeader: c.Pre}}
 			ex := pc.StartHandshake()
 			Settle()
 			if err := pc.FinishHandshake(); err != nil {
@@ -400,6 +424,7 @@ func runC17(c c17Case) (fail string, stats map[string]bool) {
 				q += "&sid=" + pc.Sid
 			}
 			spec := NewReq("OPTIONS", w.Path, q)
+			spec.PreHeader = c.Pre
 			hdr.Set("Access-Control-Request-Method", "POST")
 			hdr.Set("Access-Control-Request-Headers", "x-requested-with")
 			spec.Header = hdr
@@ -493,7 +518,7 @@ func TestC17Headers(t *testing.T) {
 			rt.Fatalf("%v: %s", c, clipStr(res.Leak, 1500))
 		}
 	})
-	req := []string{"request-after-handshake", "response-after-close", "cors-response", "non-string-origin-policy", "preflight", "preflight-continue", "compressed-poll"}
+	req := []string{"headers-preset-by-the-host-application", "request-after-handshake", "response-after-close", "cors-response", "non-string-origin-policy", "preflight", "preflight-continue", "compressed-poll"}
 	if !known {
 		req = append(req, "cookie-on-handshake")
 	}
